@@ -308,7 +308,7 @@ Section Run.
               if s_p s'' =? pe then eof_phase d' s''
               else if s_p s' =? s_p s then run_c f d' s'' rest1
               else if (0 <=? s_p s'') && (s_p s'' <? pe) then run_c f d' s'' (skipn (Z.to_nat (s_p s'')) data)
-              else OPanic PData in
+              else run_c f d' s'' [] in   (* p out of range: the next DISPATCH panics (or the fuel is gone), as in [run] *)
         match exec_units us s with
         | RCont s' => goto_ s' d
         | RGoto s' d' => goto_ s' d'
